@@ -40,6 +40,9 @@ type WritingState struct {
 func (ws *WritingState) IsActive() bool {
 	ws.Lock()
 	defer ws.Unlock()
+	verifSync("lock", "wsm", ws)
+	defer verifSync("unlock", "wsm", ws)
+	verifAcc("wsa", ws, false)
 	return ws.Active
 }
 
@@ -48,6 +51,9 @@ func (ws *WritingState) IsActive() bool {
 func (ws *WritingState) ComputeState() *WritingState {
 	ws.Lock()
 	defer ws.Unlock()
+	verifSync("lock", "wsm", ws)
+	defer verifSync("unlock", "wsm", ws)
+	verifAcc("wsa", ws, false)
 	var copyState WritingState
 	copyState.Active = ws.Active
 	copyState.Paused = ws.Paused
@@ -68,6 +74,9 @@ func (ws *WritingState) ComputeState() *WritingState {
 func (ws *WritingState) Start(filenamePattern, path string, config *WriteControlConfig) error {
 	ws.Lock()
 	defer ws.Unlock()
+	verifSync("lock", "wsm", ws)
+	defer verifSync("unlock", "wsm", ws)
+	verifAcc("wsa", ws, true)
 	ws.Active = true
 	ws.Paused = false
 	ws.BasePath = path
@@ -85,6 +94,9 @@ func (ws *WritingState) Start(filenamePattern, path string, config *WriteControl
 func (ws *WritingState) Stop() error {
 	ws.Lock()
 	defer ws.Unlock()
+	verifSync("lock", "wsm", ws)
+	defer verifSync("unlock", "wsm", ws)
+	verifAcc("wsa", ws, true)
 	ws.Active = false
 	ws.Paused = false
 	ws.FilenamePattern = ""
@@ -133,6 +145,9 @@ func (ws *WritingState) Stop() error {
 func (ws *WritingState) SetExperimentStateLabel(timestamp time.Time, stateLabel string) error {
 	ws.Lock()
 	defer ws.Unlock()
+	verifSync("lock", "wsm", ws)
+	defer verifSync("unlock", "wsm", ws)
+	verifAcc("wsa", ws, true)
 	if !ws.Active {
 		return fmt.Errorf("cannot set experiment state label when writing is not active")
 	}
